@@ -319,7 +319,14 @@ def gen_vqe_case(rng, tier, shell=None):
     sym = rng.random() < 0.8
     return {"n": n, "occ": occ, "spin": ns, "shell": shell, "frozen": frozen, "mapping": mapping, "utd": utd, "core": rng.randint(-2, 2),
             "h": CC.rand_h(rng, n, sym).astype(int).tolist(), "eri": CC.rand_eri(rng, n, sym).astype(int).tolist(), "sym": sym,
-            "circ_seed": rng.randrange(1 << 30), "style": rng.choice(["stabilizer", "stabilizer", "stabilizer", "angles", "reference"])}
+            "circ_seed": rng.randrange(1 << 30), "style": rng.choice(["stabilizer", "stabilizer", "stabilizer", "angles", "reference"]),
+            "refstate": rng.random() < 0.2}
+
+
+def prepared_circuit(v):
+    """the state VQESolver.energy_estimation evaluates: the solver's reference circuit followed by the ansatz"""
+    ref = getattr(v, "reference_circuit", None)
+    return v.ansatz.circuit if (ref is None or ref.size == 0) else ref + v.ansatz.circuit
 
 
 def build_circuit(c, nq):
@@ -333,6 +340,10 @@ def build_circuit(c, nq):
         gates = list(c["_ref_gates"]) + [Gate("RY", q, parameter=0.1, is_variational=True) for q in range(nq)]
         return Circuit(gates, n_qubits=nq), [0.0] * nq
     gates = [Gate("X", q) for q in range(nq) if r.random() < 0.5]
+    if c.get("refstate"):
+        # solver built with a ref_state override: the X layer is handed over as `ref_state`, the rest is the ansatz
+        c["_ref_circuit"] = Circuit(gates or [Gate("X", 0)], n_qubits=nq)
+        gates = []
     params = []
     for _ in range(r.randint(2, 9)):
         k = r.random()
@@ -370,10 +381,15 @@ def run_vqe_case(c):
         from tangelo.toolboxes.qubit_mappings.statevector_mapping import get_reference_circuit
         c = dict(c)
         c["_ref_gates"] = list(get_reference_circuit(nso, mol.n_active_electrons, c["mapping"], c["utd"], mol.active_spin))
+    c = dict(c)
     circ, params = build_circuit(c, nq)
-    v = VQESolver({"molecule": mol, "ansatz": circ, "qubit_mapping": c["mapping"], "up_then_down": c["utd"]})
+    opts = {"molecule": mol, "ansatz": circ, "qubit_mapping": c["mapping"], "up_then_down": c["utd"]}
+    if c.get("refstate") and c["style"] != "reference":
+        opts["ref_state"] = c["_ref_circuit"]
+    v = VQESolver(opts)
     v.build()
     params = list(params)
+    e_est = v.energy_estimation(params)
     r1s, r2s = v.get_rdm(params, sum_spin=False)
     r1s, r2s = np.array(r1s), np.array(r2s)
     r1, r2 = v.get_rdm(params, sum_spin=True)
@@ -383,7 +399,7 @@ def run_vqe_case(c):
     inputs_kept = np.array_equal(r1, r1_0) and np.array_equal(r2, r2_0)
     # independent expectation values: statevector of the prepared circuit + plain-numpy Pauli expectations
     v.ansatz.update_var_params(params)
-    _, sv = v.backend.simulate(v.ansatz.circuit, return_statevector=True)
+    _, sv = v.backend.simulate(prepared_circuit(v), return_statevector=True)
     msb = qubit_msb_first(v.backend)
     cache = {}
     fh = mol.fermionic_hamiltonian
@@ -405,16 +421,17 @@ def run_vqe_case(c):
     core, h1, g1 = mol.get_active_space_integrals()
     return {"mol": mol, "nso": nso, "nq": nq, "r1s": r1s, "r2s": r2s, "r1": r1, "r2": r2, "e_rdm": e_rdm, "e_direct": e_direct,
             "evs": evs, "n_mean": n_mean, "n_var": n_sq - n_mean ** 2, "core": core, "h1": h1, "g1": g1, "inputs_kept": inputs_kept,
-            "n_terms": len(evs), "n_params": len(params)}
+            "n_terms": len(evs), "n_params": len(params), "e_est": e_est}
 
 
 def vqe_oracles(ck, c, r):
     tol = 1e-8
     rep = {"kind": "vqe", "case": c}
     tag = "%s/%s" % (c["mapping"], "utd" if c["utd"] else "alt")
-    if abs(r["e_rdm"] - r["e_direct"]) > tol:
-        ck.violation("C13/get_rdm/energy/%s" % tag, "energy_from_rdms(get_rdm(theta)) = %.10f but <psi|H|psi> = %.10f" % (r["e_rdm"], r["e_direct"]),
-                     rep, found_input=True)
+    cls = "ref_state-override/" if (c.get("refstate") and c["style"] != "reference") else ""
+    if abs(r["e_rdm"] - r["e_direct"]) > tol or abs(r["e_est"] - r["e_direct"]) > tol:
+        ck.violation("C13/get_rdm/%senergy/%s" % (cls, tag), "energy_from_rdms(get_rdm(theta)) = %.10f, energy_estimation(theta) = %.10f, <psi|H|psi> of "
+                     "reference circuit + ansatz = %.10f" % (r["e_rdm"], r["e_est"], r["e_direct"]), rep, found_input=True)
     # Hermiticity needs a Hermitian Hamiltonian (term list closed under conjugation): only for integrals with the
     # symmetries of real orbitals; the asymmetric stub tensors exercise the index placement only
     if c["sym"]:
@@ -432,7 +449,7 @@ def vqe_oracles(ck, c, r):
     if abs(r["n_var"]) < 1e-9 and all_num:
         for nm, a in (("spin-resolved", r["r1s"]), ("spin-summed", r["r1"])):
             if abs(np.trace(a) - r["n_mean"]) > tol:
-                ck.violation("C13/get_rdm/trace/%s/%s" % (nm, tag), "state conserves the electron number (<N> = %.6f, variance 0) but the %s 1-RDM "
+                ck.violation("C13/get_rdm/%strace/%s/%s" % (cls, nm, tag), "state conserves the electron number (<N> = %.6f, variance 0) but the %s 1-RDM "
                              "traces to %s" % (r["n_mean"], nm, np.trace(a)), rep, found_input=True)
     if c["style"] == "reference" and all_num:
         ne = r["mol"].n_active_electrons
@@ -456,7 +473,7 @@ def run_vqe(ck, n_cases):
         for mapping, utd in (("scbk", True), ("bk", False), ("jw", True), ("jkmn", False)):
             for style in ("reference", "stabilizer"):
                 c = gen_vqe_case(ck.rng, ck.tier, shell)
-                c.update({"mapping": mapping, "utd": utd, "style": style, "sym": True})
+                c.update({"mapping": mapping, "utd": utd, "style": style, "sym": True, "refstate": (style == "stabilizer" and mapping in ("jw", "scbk"))})
                 c["h"] = (CC.rand_h(ck.rng, c["n"], True) + 5 * np.eye(c["n"])).astype(int).tolist()   # h_PP != 0
                 c["eri"] = CC.rand_eri(ck.rng, c["n"], True).astype(int).tolist()
                 forced.append(c)
@@ -476,6 +493,7 @@ def run_vqe(ck, n_cases):
                         "terms": r["n_terms"], "e_rdm": r["e_rdm"], "e_direct": r["e_direct"], "trace": float(np.trace(r["r1"]).real)},
                 tags=[c["mapping"], "utd" if c["utd"] else "alt", c["style"], "nact=%d" % (r["nso"] // 2),
                       "N-conserving" if abs(r["n_var"]) < 1e-9 else "N-mixing", c.get("shell", "closed"),
+                      "ref_state-override" if (c.get("refstate") and c["style"] != "reference") else "no-ref_state",
                       "scbk-odd-spin-half" if (c["mapping"] == "scbk" and (c["spin"] // 2) % 2 == 1) else "other-sector"])
         vqe_oracles(ck, c, r)
         if c["style"] not in ("stabilizer", "reference"):
@@ -554,14 +572,17 @@ def state_expectations(v, mol, params, mapping, utd, spin):
     nso = mol.n_active_sos
     nq = get_qubit_number(mapping, nso)
     v.ansatz.update_var_params(params)
-    _, sv = v.backend.simulate(v.ansatz.circuit, return_statevector=True)
+    _, sv = v.backend.simulate(prepared_circuit(v), return_statevector=True)
     msb = qubit_msb_first(v.backend)
     cache = {}
     kw = dict(mapping=mapping, n_spinorbitals=nso, n_electrons=mol.n_active_electrons, up_then_down=utd, spin=spin)
     fh = mol.fermionic_hamiltonian
     out = {"e": op_expectation(fermion_to_qubit_mapping(fermion_operator=fh, **kw), sv, nq, msb, cache).real}
     na_op, nb_op = FermionOperator(), FermionOperator()
+    nmo = mol.n_active_mos if mol.uhf else [mol.n_active_mos, mol.n_active_mos]
     for p in range(nso):
+        if p // 2 >= nmo[p % 2]:
+            continue        # padding spin-orbital of a UHF molecule with fewer active orbitals in this channel: not an orbital
         if p % 2 == 0:
             na_op += FermionOperator(((p, 1), (p, 0)), 1.0)
         else:
@@ -603,13 +624,17 @@ def real_circuit(rng, nq, ref_gates=()):
     return Circuit(gates, n_qubits=nq), npar
 
 
-def uhf_signature(mol, mapping, what):
+# (the class unequal-active-spaces was a defect of the original source — every block allocated with max(n_active_mos) —
+#  repaired by /repo commit 46e03f4; kept so that a regression is reported under the same signature)
+def uhf_signature(mol, mapping, what, refstate=False):
     """call site + input class of a get_rdm_uhf failure.  The class scbk/spin-differs-from-active_spin was a defect of the
     original source (operators mapped with molecule.spin), repaired by /repo commit 0fac909; the class is kept so that a
     regression is reported under the same signature."""
     nm = mol.n_active_mos
     if nm[0] != nm[1]:
         return "C13/get_rdm_uhf/unequal-active-spaces/%s" % what
+    if refstate:
+        return "C13/get_rdm_uhf/ref_state-override/%s/%s" % (what, mapping.lower())
     if mapping.lower() == "scbk" and (mol.spin // 2) % 2 != (mol.active_spin // 2) % 2:
         return "C13/get_rdm_uhf/scbk/spin-differs-from-active_spin/%s" % what
     return None
@@ -618,10 +643,11 @@ def uhf_signature(mol, mapping, what):
 def check_get_rdm_uhf(ck, mol, v, params, mapping, utd, rep, label):
     """all oracles for one (UHF molecule, state): returns nothing, records violations"""
     tag = "%s/%s" % (mapping, "utd" if utd else "alt")
+    rs = bool(rep.get("case", {}).get("refstate"))
     try:
         d1, d2 = v.get_rdm_uhf(list(params))
     except Exception as e:
-        ck.violation(uhf_signature(mol, mapping, "crash") or "C13/get_rdm_uhf/crash/%s/%s" % (type(e).__name__, tag),
+        ck.violation(uhf_signature(mol, mapping, "crash", rs) or "C13/get_rdm_uhf/crash/%s/%s" % (type(e).__name__, tag),
                      "%s: get_rdm_uhf raised %r" % (label, e), rep, found_input=True)
         return
     d1 = [np.array(x) for x in d1]
@@ -631,11 +657,11 @@ def check_get_rdm_uhf(ck, mol, v, params, mapping, utd, rep, label):
     try:
         e_rdm = mol.energy_from_rdms([x.copy() for x in d1], [x.copy() for x in d2])
     except Exception as e:
-        ck.violation(uhf_signature(mol, mapping, "energy_from_rdms-raises") or "C13/get_rdm_uhf/energy_from_rdms-raises/%s" % tag,
+        ck.violation(uhf_signature(mol, mapping, "energy_from_rdms-raises", rs) or "C13/get_rdm_uhf/energy_from_rdms-raises/%s" % tag,
                      "%s: energy_from_rdms(get_rdm_uhf(theta)) raised %r (active orbitals per spin %s)" % (label, e, mol.n_active_mos), rep, found_input=True)
         return
     if abs(e_rdm - ex["e"]) > 1e-7 or abs(e_est - ex["e"]) > 1e-7:
-        ck.violation(uhf_signature(mol, mapping, "energy") or "C13/get_rdm_uhf/energy/%s" % tag,
+        ck.violation(uhf_signature(mol, mapping, "energy", rs) or "C13/get_rdm_uhf/energy/%s" % tag,
                      "%s: energy_from_rdms(get_rdm_uhf(theta)) = %.9f, energy_estimation(theta) = %.9f, <psi|H|psi> = %.9f (spin %d, active spin %d)"
                      % (label, e_rdm, e_est, ex["e"], mol.spin, mol.active_spin), rep, found_input=True)
     nso = mol.n_active_sos
@@ -644,16 +670,16 @@ def check_get_rdm_uhf(ck, mol, v, params, mapping, utd, rep, label):
     if all_num:
         for k, got in (("na", np.trace(d1[0])), ("nb", np.trace(d1[1]))):
             if abs(got - ex[k]) > 1e-7:
-                ck.violation(uhf_signature(mol, mapping, "trace") or "C13/get_rdm_uhf/trace-%s/%s" % (k, tag),
+                ck.violation(uhf_signature(mol, mapping, "trace", rs) or "C13/get_rdm_uhf/trace-%s/%s" % (k, tag),
                              "%s: 1-RDM block trace %s = %.9f, expectation of the number operator %.9f" % (label, k, float(np.real(got)), ex[k]), rep, found_input=True)
     if rep.get("real_molecule"):        # Coulomb-type integrals never vanish for a molecule: all [p,p,q,q] entries are measured
         for k, got in (("naa", np.einsum("ppqq->", d2[0])), ("nab", np.einsum("ppqq->", d2[1])), ("nbb", np.einsum("ppqq->", d2[2]))):
             if abs(got - ex[k]) > 1e-6:
-                ck.violation(uhf_signature(mol, mapping, "trace") or "C13/get_rdm_uhf/trace-%s/%s" % (k, tag),
+                ck.violation(uhf_signature(mol, mapping, "trace", rs) or "C13/get_rdm_uhf/trace-%s/%s" % (k, tag),
                              "%s: 2-RDM block trace %s = %.9f, expected %.9f" % (label, k, float(np.real(got)), ex[k]), rep, found_input=True)
     herm = max(np.abs(d1[0] - d1[0].T).max(), np.abs(d1[1] - d1[1].T).max(), max(np.abs(x - x.transpose(1, 0, 3, 2)).max() for x in d2))
     if herm > 1e-7 and rep.get("sym", True):
-        ck.violation(uhf_signature(mol, mapping, "hermiticity") or "C13/get_rdm_uhf/hermiticity/%s" % tag,
+        ck.violation(uhf_signature(mol, mapping, "hermiticity", rs) or "C13/get_rdm_uhf/hermiticity/%s" % tag,
                      "%s: spin blocks are not symmetric (real state): %.2e" % (label, herm), rep, found_input=True)
 
 
@@ -684,6 +710,7 @@ def gen_uhf_case(rng, tier):
     eab = eab + eab.transpose(1, 0, 2, 3)
     eab = eab + eab.transpose(0, 1, 3, 2)
     return {"n": n, "occa": occa, "occb": occb, "spin": na_el - nb_el, "frozen": frozen, "fkind": kind, "mapping": mapping, "utd": utd,
+            "refstate": rng.random() < 0.15,
             "core": rng.randint(-2, 2), "ha": hs[0].astype(int).tolist(), "hb": hs[1].astype(int).tolist(),
             "eaa": eaa.astype(int).tolist(), "eab": eab.astype(int).tolist(), "ebb": ebb.astype(int).tolist(), "seed": rng.randrange(1 << 30)}
 
@@ -701,7 +728,11 @@ def run_uhf_case(ck, c):
     r = random.Random(c["seed"])
     nq = get_qubit_number(c["mapping"], mol.n_active_sos)
     circ, npar = real_circuit(r, nq)
-    v = VQESolver({"molecule": mol, "ansatz": circ, "qubit_mapping": c["mapping"], "up_then_down": c["utd"]})
+    opts = {"molecule": mol, "ansatz": circ, "qubit_mapping": c["mapping"], "up_then_down": c["utd"]}
+    if c.get("refstate"):
+        from tangelo.linq import Circuit, Gate
+        opts["ref_state"] = Circuit([Gate("X", q) for q in range(nq) if r.random() < 0.6] or [Gate("X", 0)], n_qubits=nq)
+    v = VQESolver(opts)
     v.build()
     params = [r.uniform(-2.5, 2.5) for _ in range(npar)]
     check_get_rdm_uhf(ck, mol, v, params, c["mapping"], c["utd"], {"kind": "vqe-uhf", "case": c}, "stub UHF occa=%s occb=%s frozen=%s %s" % (
@@ -718,6 +749,10 @@ def run_vqe_uhf(ck, n_cases):
         {"occa": [1, 1, 1, 0], "occb": [1, 0, 0, 0], "frozen": [[0], [3]], "mapping": "scbk", "utd": True, "fkind": "equal-active"},
         {"occa": [1, 1, 1, 0], "occb": [1, 0, 0, 0], "frozen": [[0], [3]], "mapping": "jw", "utd": False, "fkind": "equal-active"},
         {"occa": [1, 1, 0], "occb": [1, 0, 0], "frozen": [[0], []], "mapping": "jw", "utd": False, "fkind": "unequal-active"},
+        {"occa": [1, 1, 0], "occb": [1, 0, 0], "frozen": [[], [2]], "mapping": "jw", "utd": True, "fkind": "unequal-active"},
+        {"occa": [1, 1, 0], "occb": [1, 0, 0], "frozen": [[0, 2], [1]], "mapping": "bk", "utd": False, "fkind": "unequal-active"},
+        {"occa": [1, 1, 0], "occb": [1, 0, 0], "frozen": [[0], []], "mapping": "scbk", "utd": True, "fkind": "unequal-active"},
+        {"occa": [1, 1, 0], "occb": [1, 0, 0], "frozen": None, "mapping": "jw", "utd": False, "fkind": "no-frozen", "refstate": True},
         {"occa": [1, 1, 0], "occb": [1, 0, 0], "frozen": None, "mapping": "jw", "utd": True, "fkind": "no-frozen"},
         {"occa": [1, 1, 0], "occb": [1, 0, 0], "frozen": None, "mapping": "bk", "utd": False, "fkind": "no-frozen"},
     ]
@@ -729,6 +764,7 @@ def run_vqe_uhf(ck, n_cases):
             c = gen_uhf_case(ck.rng, ck.tier)
             while c["n"] != n:
                 c = gen_uhf_case(ck.rng, ck.tier)
+            c["refstate"] = False
             c.update(f)
             c["spin"] = sum(f["occa"]) - sum(f["occb"])
         try:
@@ -876,12 +912,13 @@ def run_pyscf_get_rdm(ck):
     # (name, xyz, q, spin, frozen, uhf)
     mols = [("H4-triplet", chain(4, 0.9), 0, 2, None, False), ("H3-quartet", chain(3, 1.0), 0, 3, None, False), ("H2-singlet", chain(2, 0.8), 0, 0, None, False),
             ("H3-UHF-doublet", chain(3, 0.95), 0, 1, None, True),
-            ("H4-UHF-triplet-frozen[[0],[3]]", chain(4, 0.9), 0, 2, [[0], [3]], True)]
+            ("H4-UHF-triplet-frozen[[0],[3]]", chain(4, 0.9), 0, 2, [[0], [3]], True),
+            ("H3-UHF-doublet-frozen[[0],[]]", chain(3, 0.95), 0, 1, [[0], []], True)]
     if ck.tier == "thorough":
         mols += [("H4+-quartet", chain(4, 1.0), 1, 3, None, False), ("H3-doublet", chain(3, 0.95), 0, 1, None, False),
                  ("H4-triplet-frozen[0]", chain(4, 0.85), 0, 2, [0], False), ("H4-singlet-frozen[3]", chain(4, 0.9), 0, 0, [3], False),
                  ("H4-UHF-triplet-frozen[[3],[3]]", chain(4, 0.9), 0, 2, [[3], [3]], True), ("H4+-UHF-doublet-frozen[[3],[3]]", chain(4, 0.95), 1, 1, [[3], [3]], True),
-                 ("H3-UHF-doublet-frozen[[0],[]]", chain(3, 0.95), 0, 1, [[0], []], True)]
+                 ("H4-UHF-triplet-frozen[[0,2],[1]]", chain(4, 0.9), 0, 2, [[0, 2], [1]], True)]
     maps = [("scbk", True), ("jw", False)] if ck.tier == "quick" else \
            [("scbk", True), ("jw", False), ("jw", True), ("bk", False), ("bk", True), ("jkmn", False), ("jkmn", True)]
     for name, xyz, q, spin, fr, uhf in mols:
